@@ -1,7 +1,7 @@
-(* C06  Tokenisation is total and always makes progress (all byte strings, no size bound).
+(* C06  Tokenisation and parsing are total and always make progress (all byte strings, no size bound).
    The crash / wall-time clauses for the handlers are runtime behaviour: they are searched by
    the harness (recover + time budget on every request), not proved; see the level note. *)
-From HL Require Import Lib.Bytes Lib.Utf8 Model.Lexer Proofs.LexerProofs.
+From HL Require Import Lib.Bytes Lib.Utf8 Model.Lexer Model.Parser Proofs.LexerProofs Proofs.ParserProofs.
 
 (* on ANY lexer state with input left, one call of Next consumes at least one byte: invalid
    UTF-8, NUL bytes, unterminated quotes / codes / brackets, stray operators included *)
@@ -20,6 +20,22 @@ Print Assumptions C06_eof_at_end.
 Theorem C06_lex_total : forall input : list N, lex input <> None.
 Proof. exact lex_total. Qed.
 Print Assumptions C06_lex_total.
+
+(* the parser terminates too: its three fuelled loops (journal, postings, sub-directives) never run
+   dry, on any byte string -- every function keeps the EOF-terminated shape of the token list and
+   the ones the loops rely on consume at least one token *)
+Theorem C06_parse_total : forall input : list N, parse input <> None.
+Proof. exact parse_total. Qed.
+Print Assumptions C06_parse_total.
+
+Theorem C06_postings_loop_total : forall fuel ps acc, wf ps -> (len ps < fuel)%nat ->
+  exists r ps', parse_postings fuel ps acc = Some (r, ps') /\ wf ps' /\ (len ps' <= len ps)%nat.
+Proof. exact parse_postings_total. Qed.
+Print Assumptions C06_postings_loop_total.
+
+Theorem C06_error_recovery_progress : forall ps, is_ty (ctype ps) TEOF = false -> lt (skip_to_next_line ps) ps.
+Proof. exact skip_to_next_line_lt. Qed.
+Print Assumptions C06_error_recovery_progress.
 
 (* non-vacuity: hostile input still lexes to an EOF-terminated stream *)
 Example C06_example :
